@@ -246,6 +246,16 @@ class Session:
                     else:
                         v = tp.TypeParameter('Z%d' % (len(self.pool) % 3))
                         self.add(v, ('v', v.name, None))
+                    vterm = self.pool[-1][1]
+                    # a type whose wildcard bound mentions the variable inside a nested type: G<out H<Z>>
+                    one = [k for k in u.generics() if len(u.table.cls[k]['params']) == 1 and
+                           u.table.cls[k]['params'][0][2] is None and u.table.cls[k]['params'][0][1] != 'in']
+                    if len(one) >= 1 and op[1] % 2 == 0:
+                        inner_k, outer_k = one[op[1] % len(one)], one[(op[1] // 2) % len(one)]
+                        inner = u.classes[inner_k].new([v])
+                        w = tp.WildCardType(inner, tp.Covariant)
+                        r2 = u.classes[outer_k].new([w])
+                        self.add(r2, ('i', outer_k, (('p', 'out', ('i', inner_k, (vterm,))),)))
                     # and an instantiation mentioning it
                     if self.cons:
                         key, con = self.cons[op[1] % len(self.cons)]
@@ -253,7 +263,7 @@ class Session:
                         bounds_ok = all(pb is None for pn, pv, pb in u.table.cls[key]['params'])
                         if bounds_ok:
                             r = con.new([v] * n)
-                            self.add(r, ('i', key, tuple([self.pool[-1][1]] * n)))
+                            self.add(r, ('i', key, tuple([vterm] * n)))
                     self.col.feature('op_typevar')
             except RecursionError:
                 self.report('C07/operation-raises/%s/RecursionError' % kind, {})
